@@ -53,6 +53,13 @@ def main():
     res.setdefault("reach", {})
     for k, v in B.REACH.items():
         res["reach"][k] = res["reach"].get(k, 0) + v
+    from twzmon import spec as _spec
+    from tawazi.config import cfg as _cfg
+
+    for k, v in _spec.DECL_FORMS.items():
+        res["reach"]["decl:" + k] = res["reach"].get("decl:" + k, 0) + v
+    res["reach"]["process_default:resource=%s,is_sequential=%s" % (getattr(_cfg.TAWAZI_DEFAULT_RESOURCE, "value", _cfg.TAWAZI_DEFAULT_RESOURCE),
+                                                                   _cfg.TAWAZI_IS_SEQUENTIAL)] = 1
     res["worker_wall_s"] = time.time() - t0
     res["peak_threads"] = max(peak[0], threading.active_count())
     with open(out, "w") as f:
